@@ -748,6 +748,33 @@ func main() {
 		}
 	}
 
+	// ---- 1b. powers at the edges of the float64 range ----
+	// results that are subnormal or overflow only through an intermediate
+	// (base**|n| overflows while base**-n is a subnormal), exact powers of two,
+	// negative bases with odd/even exponents: the folder and the VM must agree
+	// bit for bit whatever algorithm either uses
+	powPairs := [][2]Lit{
+		{{IsF: true, F: 2.0}, {I: -1074}}, {{IsF: true, F: 2.0}, {I: -1075}}, {{IsF: true, F: 2.0}, {I: -1022}},
+		{{IsF: true, F: 2.0}, {I: 1023}}, {{IsF: true, F: 2.0}, {I: 1024}}, {{IsF: true, F: 1e5}, {I: -64}},
+		{{IsF: true, F: 10.0}, {I: -310}}, {{IsF: true, F: 10.0}, {I: -323}}, {{IsF: true, F: 10.0}, {I: 308}},
+		{{IsF: true, F: 1.5}, {I: -1800}}, {{IsF: true, F: 0.5}, {I: 1074}}, {{IsF: true, F: -2.0}, {I: -1075}},
+		{{IsF: true, F: -2.0}, {I: 1023}}, {{IsF: true, F: 1e-5}, {I: 64}}, {{IsF: true, F: 3.0}, {I: 40}},
+		{{I: 10}, {IsF: true, F: -310}}, {{I: 2}, {IsF: true, F: -1074}}, {{IsF: true, F: 1.0000001}, {I: 1000000}},
+		{{I: 3}, {I: 39}}, {{I: 3}, {I: 40}}, {{I: -3}, {I: 39}}, {{I: 2}, {I: 62}}, {{I: 2}, {I: 63}}, {{I: 2}, {I: -2}},
+	}
+	for _, pr := range powPairs {
+		for _, pi := range []int{0, 4, 5} {
+			tb := newTabs()
+			e := bin("**", lit(pr[0]), lit(pr[1]))
+			_, zeroDiv := e.Const(tb)
+			src := positions[pi].mk(e.Src())
+			g.checkProgram("pow-edge/"+positions[pi].name, src, positions[pi].lines, zeroDiv, false, pr[0].Ty()+"**"+pr[1].Ty())
+			if pi == 0 {
+				g.treeCases(src, tb)
+			}
+		}
+	}
+
 	// ---- 2. random nested constant expressions in random positions ----
 	nrand := 250
 	if a.Thorough() {
